@@ -569,6 +569,52 @@ impl Prims {
         }
     }
 
+    /// Very large indexes in which a word occurs at a few chosen positions only: the distances between two
+    /// occurrences of a gram (and from position 0 to its first occurrence) sit at and next to 255, 256, 65 535,
+    /// 65 536 and their doubles - the values at which narrow or delta-encoded posting lists change their layout.
+    fn index_sparse_case(&self, cx: &mut Cx, lang: &'static str) {
+        let gaps = [255usize, 256, 257, 65_534, 65_535, 65_536, 65_537, 131_070, 131_071, 131_072];
+        let first = *cx.rng.pick(&[0usize, 1, 255, 256, 65_535, 65_536, 300]);
+        let g1 = *cx.rng.pick(&gaps);
+        let g2 = *cx.rng.pick(&gaps[..8]);
+        let at: Vec<usize> = vec![first, first + g1, first + g1 + g2];
+        let n = at[2] + cx.rng.range(1, 300);
+        let rare = *cx.rng.pick(&["zebra", "yak", "quartz"]);
+        let mut st = St::sentinel(lang, 10);
+        for i in 0..n {
+            let t = if at.contains(&i) { rare.to_string() } else { format!("apple {}", i % 7) };
+            st.add(&(i, t, 1));
+        }
+        cx.count("sparse indexes of 65 000 - 330 000 records");
+        for (q, size) in [(rare.to_string(), 1usize), (rare.chars().take(2).collect::<String>(), 5), (format!("{} x", rare), 3)].iter() {
+            let tq = st.tok_query(q);
+            cx.ctx(format!("C18 sparse lang={} records={} rare word {:?} at {:?} q={:?} size={}", lang, n, rare, at, q, size));
+            let got = st.store.index.borrow_mut().prepare(&tq.to_ref(), *size);
+            cx.eval();
+            cx.count("prepare calls");
+            // the rare word's positions share the most grams with any of these queries (and nothing else shares its grams),
+            // so they must be listed first
+            let mut errs: Vec<String> = vec![];
+            if got.len() < at.len().min(10 * size) {
+                errs.push(format!("{} positions listed, the {} positions of the rare word share its grams", got.len(), at.len()));
+            } else {
+                let head: BTreeSet<usize> = got.iter().take(at.len()).cloned().collect();
+                let want: BTreeSet<usize> = at.iter().cloned().collect();
+                if at.len() <= 10 * size && head != want {
+                    errs.push(format!("the first {} listed positions are {:?}, the rare word is at {:?}", at.len(), head, want));
+                }
+            }
+            if got.len() != at.len().min(10 * size) {
+                errs.push(format!("{} positions listed for a word that occurs {} times", got.len(), at.len()));
+            }
+            cx.key(hparts(&[lang, &format!("{:?}", at), q]));
+            if !errs.is_empty() {
+                cx.fail("index-candidates", json!({"lang": lang, "store": format!("{} records 'apple <i mod 7>' except {:?} at positions {:?}", n, rare, at), "query": q, "size": size, "got_head": got.iter().take(12).collect::<Vec<_>>(), "errors": errs}));
+                return;
+            }
+        }
+    }
+
     /// Long texts: queries with several hundred distinct grams against records sharing most of them.
     fn index_long_case(&self, cx: &mut Cx, lang: &'static str) {
         let alpha = gen::lower_alphabet(lang);
@@ -832,7 +878,7 @@ impl Prop for Prims {
         match self.0 {
             Which::Distance => vec![Stream::new("exhaustive", 341, 1555), Stream::new("random", 24000, 720000).miri(8)],
             Which::Jaccard => vec![Stream::new("exhaustive", 341, 1365), Stream::new("random", 32000, 1600000).miri(8)],
-            Which::Index => vec![Stream::new("stores", 6400, 320000), Stream::new("corpus", 96, 2880), Stream::new("long", 320, 16000), Stream::new("session", 16, 160)],
+            Which::Index => vec![Stream::new("stores", 6400, 320000), Stream::new("corpus", 96, 2880), Stream::new("long", 320, 16000), Stream::new("session", 16, 160), Stream::new("sparse", 16, 160)],
             Which::Unchecked => vec![Stream::new("direct", 24000, 1200000).asan(24000).miri(12), Stream::new("store", 6400, 320000).asan(6400).miri(6)],
         }
     }
@@ -840,7 +886,7 @@ impl Prop for Prims {
         match self.0 {
             Which::Distance => vec![("exhaustive pairs", 100000, 2000000), ("prefix cells compared", 1000000, 20000000), ("pairs where a discount lowered the distance", 10000, 100000), ("random pairs beyond capacity 20", 500, 5000), ("long pairs with sampled prefix cells", 200, 2000), ("random cases with per-position character classes", 2000, 20000), ("re-classed repeat calls", 10000, 100000), ("random cases over an alphabet of 41-110 symbols", 3000, 30000), ("calls with one word held fixed while the other grows", 20000, 200000), ("hook matrix growths", 3, 3), ("hook matrix max size", 50, 50)],
             Which::Jaccard => vec![("exhaustive pairs", 100000, 1500000), ("pairs with partial overlap", 20000, 200000), ("pairs beyond the initial capacity of 20", 500, 5000), ("random cases over a wide alphabet", 1000, 10000), ("hook jaccard accesses", 100000, 1000000)],
-            Which::Index => vec![("prepare calls", 5000, 50000), ("capped calls", 500, 5000), ("calls with ties at the cut", 100, 1000), ("size 0", 300, 3000), ("corpus prepare calls", 200, 2000), ("stores of 1023-5000 records", 50, 500), ("queries with more than 255 distinct grams", 300, 15000), ("calls at the boundary between 'all listed' and 'capped'", 300, 15000), ("session calls on one index", 1000000, 10000000), ("most calls on one index max ", 131000, 131000), ("sessions past 2^17 calls", 2, 20), ("calls with a query without words", 300, 3000), ("stores of words with letters above U+FFFF and their 16-bit look-alikes", 300, 3000)],
+            Which::Index => vec![("prepare calls", 5000, 50000), ("capped calls", 500, 5000), ("calls with ties at the cut", 100, 1000), ("size 0", 300, 3000), ("corpus prepare calls", 200, 2000), ("stores of 1023-5000 records", 50, 500), ("queries with more than 255 distinct grams", 300, 15000), ("calls at the boundary between 'all listed' and 'capped'", 300, 15000), ("session calls on one index", 1000000, 10000000), ("most calls on one index max ", 131000, 131000), ("sessions past 2^17 calls", 2, 20), ("calls with a query without words", 300, 3000), ("sparse indexes of 65 000 - 330 000 records", 16, 160), ("stores of words with letters above U+FFFF and their 16-bit look-alikes", 300, 3000)],
             Which::Unchecked => vec![("direct distance/similarity calls", 20000, 200000), ("direct calls beyond capacity 20", 5000, 50000), ("store-level searches", 5000, 50000), ("store-level rounds with 127-1500 records", 200, 2000), ("store-level rounds with clear and re-add", 500, 5000), ("type-ahead sequences with adds in between", 1000, 10000), ("direct call sequences with words of 76-420 letters", 200, 2000), ("direct call sequences with arithmetic length relations", 300, 3000), ("store-level queries of 65-200 words", 300, 3000), ("searches on a surviving store after a neighbour store was dropped", 3000, 30000), ("stores filled on one thread and searched on another", 500, 5000), ("direct calls whose arguments share their buffers", 5000, 50000), ("jaccard calls on sets of 256-70000 distinct elements", 20, 200), ("hook matrix accesses", 1000000, 10000000), ("hook matrix growths", 3, 3), ("hook matrix max size", 50, 50), ("hook counter accesses", 10000, 100000), ("hook cost accesses", 100000, 1000000), ("hook jaccard accesses", 10000, 100000)],
         }
     }
@@ -997,6 +1043,7 @@ impl Prop for Prims {
             }
             (Which::Index, "stores") => self.index_case(cx, LANGS[(idx % NL) as usize]),
             (Which::Index, "long") => self.index_long_case(cx, LANGS[(idx % NL) as usize]),
+            (Which::Index, "sparse") => self.index_sparse_case(cx, LANGS[(idx % NL) as usize]),
             (Which::Index, "session") => self.index_session_case(cx, LANGS[((idx / 4) % NL) as usize]),
             (Which::Index, "corpus") => {
                 let lang: &'static str = if idx % 2 == 0 { "en" } else { "none" };
